@@ -18,6 +18,7 @@ func init() {
 			"R12.5 also: every successful response leaves the keep-alive RoundTrip with its body wrapped (only a nil or http.NoBody body may stay unwrapped). " +
 			"R12.5 also: EnableConnectionReuse installs the draining transport in the client the runtime already holds, else in Runtime.Transport. " +
 			"R12.4 also: the closer of a copied stream is looked up before the body variable is re-bound to the buffer, and client.Do is not reachable after a failed debug dump. " +
+			"R12.4 also: the copying GetBody call latches on every exit; R12.3 also: createHttpRequest has no error exit after a successful buildHTTP. " +
 			"NOT decided: wall-clock bounds, behaviour of net/http and of servers.",
 		Run: runC12,
 	})
